@@ -305,6 +305,10 @@ def write_replay(pid, rec):
 
 def finish(ctx, rule, level="model_checking", extra_cov=None):
     """Classify violations, print VIOLATION / KNOWN-FINDING lines, write evidence, return exit code."""
+    if os.path.isdir(REPLAY):          # replay files of earlier runs of this property are stale now
+        for fn in os.listdir(REPLAY):
+            if fn.startswith(ctx.pid + "-"):
+                os.remove(os.path.join(REPLAY, fn))
     known = [k for k in load_known() if k.get("property") == ctx.pid and k.get("kind") == "known"]
     real, kf_hit = [], {}
     for v in ctx.viol:
